@@ -36,6 +36,7 @@ def parseCmd : List String → Option Cmd
     | some j => if validName m then some (.op (.dropTorn j m)) else none
     | none => none
   | ["crashclose", p] => (parsePointName p).map fun p => .op (.crashInClose p)
+  | ["crashopen", p] => (parsePointName p).map fun p => .op (.crashInOpen p)
   | ["f"] => some (.op .look)
   | ["r"] => some (.op .look)
   | ["snap"] => some (.op .look)
